@@ -232,6 +232,14 @@ func (e *XNilBar) Error() string {
 	return e.Msg
 }
 
+// GFoo is the generic type as old code (before the rename to GBar) has it.
+type GFoo[T any] struct {
+	Msg string
+	V   T
+}
+
+func (e *GFoo[T]) Error() string { return e.Msg }
+
 // GBar is a renamed generic type (was "*gen.GFoo[int]" for the instantiation
 // used here).
 type GBar[T any] struct {
